@@ -64,9 +64,10 @@ func (d *SQLiteDialect) Placeholder(index int) string {
 	return "?"
 }
 
-// QuoteIdentifier quotes identifiers with double quotes
+// QuoteIdentifier quotes identifiers with double quotes; a double quote inside the
+// name is doubled so the name cannot end the identifier early
 func (d *SQLiteDialect) QuoteIdentifier(name string) string {
-	return fmt.Sprintf(`"%s"`, name)
+	return `"` + strings.ReplaceAll(name, `"`, `""`) + `"`
 }
 
 // CreateTableSQL generates a CREATE TABLE statement for SQLite
@@ -130,9 +131,10 @@ func (d *PostgresDialect) Placeholder(index int) string {
 	return fmt.Sprintf("$%d", index)
 }
 
-// QuoteIdentifier quotes identifiers with double quotes
+// QuoteIdentifier quotes identifiers with double quotes; a double quote inside the
+// name is doubled so the name cannot end the identifier early
 func (d *PostgresDialect) QuoteIdentifier(name string) string {
-	return fmt.Sprintf(`"%s"`, name)
+	return `"` + strings.ReplaceAll(name, `"`, `""`) + `"`
 }
 
 // CreateTableSQL generates a CREATE TABLE statement for PostgreSQL
@@ -195,9 +197,10 @@ func (d *MySQLDialect) Placeholder(index int) string {
 	return "?"
 }
 
-// QuoteIdentifier quotes identifiers with backticks
+// QuoteIdentifier quotes identifiers with backticks; a backtick inside the name is
+// doubled so the name cannot end the identifier early
 func (d *MySQLDialect) QuoteIdentifier(name string) string {
-	return fmt.Sprintf("`%s`", name)
+	return "`" + strings.ReplaceAll(name, "`", "``") + "`"
 }
 
 // CreateTableSQL generates a CREATE TABLE statement for MySQL
